@@ -507,6 +507,7 @@ type funcCtx struct {
 	cuts   map[*ssa.BasicBlock]*Clause
 	clauses []*Clause
 	top    bool
+	atcallSeen map[*Clause]bool
 	entryGuard *Term
 	rets   []retPoint
 	path   string
@@ -518,7 +519,7 @@ func (x *Exec) runFunc(fn *ssa.Function, args []Value, bindings []Value, st *Sta
 		x.VC.Warnf("no body for %s: results havocked", fn.String())
 		return nil, st, guard
 	}
-	fc := &funcCtx{fn: fn, clauses: clauses, top: top, entryGuard: guard, inLoop: map[*ssa.BasicBlock]*loopInfo{}, cutHdr: map[*ssa.BasicBlock]*loopInfo{}, cuts: map[*ssa.BasicBlock]*Clause{}}
+	fc := &funcCtx{fn: fn, clauses: clauses, top: top, entryGuard: guard, atcallSeen: map[*Clause]bool{}, inLoop: map[*ssa.BasicBlock]*loopInfo{}, cutHdr: map[*ssa.BasicBlock]*loopInfo{}, cuts: map[*ssa.BasicBlock]*Clause{}}
 	fc.loops = findLoops(fn)
 	for _, l := range fc.loops {
 		for _, c := range clauses {
@@ -682,6 +683,12 @@ func (x *Exec) runFunc(fn *ssa.Function, args []Value, bindings []Value, st *Sta
 	// merge returns
 	if top {
 		x.topRets = fc.rets
+		for _, cl := range clauses {
+			if (cl.Kind == "atcall" || cl.Kind == "ghostat") && !fc.atcallSeen[cl] {
+				// the call site the clause talks about does not exist (any more): nothing was checked
+				x.Oblige("atcall-missing", fmt.Sprintf("%s#%d", cl.Block, cl.Ord), "", fn.Pos(), guard, False, cl.Props)
+			}
+		}
 	}
 	if len(fc.rets) == 0 {
 		return nil, st, False
